@@ -50,6 +50,8 @@ class AbstractDeme(ABC):
         # and for some algorithms (e.g. CMA-ES) HMS can run multiple generations during one metaepoch.
         self._history: list[list[list[Individual]]] = []
         self._children: list[AbstractDeme] = []
+        # Own iteration count at the moment of the most recent sprout (None: no sprout yet).
+        self._last_sprout_iteration: int | None = None
         self._logger: FilteringBoundLogger = deme_init_args.logger
 
         # Additional low-level options
@@ -119,13 +121,15 @@ class AbstractDeme(ABC):
 
     @property
     def iterations_count_since_last_sprout(self) -> int:
-        return self.current_iteration - max(
-            [child.started_at for child in self.children],
-            default=self.current_iteration,
-        )
+        # Measured on the deme's own clock: a deme that hibernated lags behind the tree's metaepoch
+        # counter (its children's started_at), which used to make this count negative.
+        if self._last_sprout_iteration is None:
+            return 0
+        return self.current_iteration - self._last_sprout_iteration
 
     def add_child(self, deme: "AbstractDeme") -> None:
         self._children.append(deme)
+        self._last_sprout_iteration = self.current_iteration
 
     @abstractmethod
     def run_metaepoch(self, tree) -> None:
